@@ -104,6 +104,26 @@ func CtxEcho(ctx context.Context, s string) string {
 	record("CtxEcho", s)
 	return fmt.Sprintf("%s|service-context=%v", s, core.GetServiceContext(ctx) != nil)
 }
+func CtxPair(ctx context.Context, a interface{}, n int) string {
+	record("CtxPair", a, n)
+	return fmt.Sprintf("%T(%v),%d", a, a, n)
+}
+func CtxLast(ctx context.Context, n int, a interface{}) string {
+	record("CtxLast", n, a)
+	return fmt.Sprintf("%d,%T(%v)", n, a, a)
+}
+func CtxVar(ctx context.Context, a interface{}, r ...int) string {
+	args := []interface{}{a}
+	for _, x := range r {
+		args = append(args, x)
+	}
+	record("CtxVar", args...)
+	return fmt.Sprintf("%T(%v),%v", a, a, r)
+}
+func CtxPtr(ctx context.Context, p *int, s []string, m map[string]int) string {
+	record("CtxPtr", p, s, m)
+	return fmt.Sprintf("%v,%d,%d", p == nil, len(s), len(m)) // nil and empty are one value on the wire
+}
 func Half(x int) (int, error) {
 	record("Half", x)
 	if x%2 != 0 {
